@@ -134,8 +134,10 @@ type FieldDecl struct {
 	PkgPath string
 	Type    string
 	Field   string
-	Mode    string   // guarded_by atomic confined immutable_after owned shared_readonly
+	Mode    string   // guarded_by atomic confined immutable_after owned shared_readonly monitor
 	Args    []string // lock / role / function list
+	Inv     ast.Expr // monitor: two-state invariant over self, old(self.f) and ghosts
+	InvText string
 	Tags    []string
 	File    string
 	Line    int
@@ -186,6 +188,7 @@ type Contracts struct {
 	Ghosts map[string]*GhostDecl
 	GhostFields map[string]string  // name -> type: ghost attributes of objects (arrays GF_<name>)
 	Unscoped    map[string][]string // pkgpath::key -> property tags: functions outside a discipline sweep
+	Rules       map[string][]string // whole-module syntactic rules claimed for properties (rule[tags] name)
 	ChanLogs    []*ChanLog          // ghost logs of channel fields
 	Globals map[string]*GlobalDecl // pkgpath.Name
 	Externs map[string]*FuncContract // assumed contracts of functions outside the module, by full name
@@ -196,7 +199,7 @@ type Contracts struct {
 
 func newContracts() *Contracts {
 	return &Contracts{Funcs: map[string]*FuncContract{}, Specs: map[string]*SpecFn{}, Lemmas: map[string]*Lemma{},
-		Ifaces: map[string]*IfaceContract{}, Ghosts: map[string]*GhostDecl{}, GhostFields: map[string]string{}, Unscoped: map[string][]string{}, Globals: map[string]*GlobalDecl{}, Externs: map[string]*FuncContract{}, Sha: map[string]string{}}
+		Ifaces: map[string]*IfaceContract{}, Ghosts: map[string]*GhostDecl{}, GhostFields: map[string]string{}, Unscoped: map[string][]string{}, Globals: map[string]*GlobalDecl{}, Externs: map[string]*FuncContract{}, Rules: map[string][]string{}, Sha: map[string]string{}}
 }
 
 type cline struct {
@@ -335,7 +338,7 @@ func matchParen(s string, i int) int {
 }
 
 var topKeywords = map[string]bool{"func": true, "closure": true, "spec": true, "lemma": true, "interface": true,
-	"field": true, "chan": true, "ghost": true, "axiom": true, "global": true, "ghostfield": true, "unscoped": true, "chanlog": true, "callguard": true, "extern": true}
+	"field": true, "chan": true, "ghost": true, "axiom": true, "global": true, "ghostfield": true, "unscoped": true, "chanlog": true, "callguard": true, "extern": true, "rule": true}
 
 var clauseKeywords = map[string]bool{"requires": true, "ensures": true, "modifies": true, "safety": true, "pure": true,
 	"inline": true, "may_panic": true, "witness": true, "lemma": true, "role": true, "holds": true, "acquires": true,
@@ -850,6 +853,14 @@ func (cs *Contracts) parseBlock(b []cline, path, pkgPath string) {
 		} else {
 			fd.Mode = mode
 		}
+		if fd.Mode == "monitor" {
+			// monitor(lock, invariant): the invariant may contain commas
+			inner := mode[strings.Index(mode, "(")+1 : matchParen(mode, strings.Index(mode, "("))]
+			c := strings.Index(inner, ",")
+			fd.Args = []string{strings.TrimSpace(inner[:c])}
+			fd.InvText = strings.TrimSpace(inner[c+1:])
+			fd.Inv = parseExprAt(fd.InvText, path, head.line)
+		}
 		cs.Fields = append(cs.Fields, fd)
 	case "chan":
 		text := rest
@@ -898,6 +909,9 @@ func (cs *Contracts) parseBlock(b []cline, path, pkgPath string) {
 			cl.Recv = f[3]
 		}
 		cs.ChanLogs = append(cs.ChanLogs, cl)
+	case "rule":
+		tags, _, body := parseTagged(rest)
+		cs.Rules[strings.TrimSpace(body)] = append(cs.Rules[strings.TrimSpace(body)], tags...)
 	case "unscoped":
 		tags, _, body := parseTagged(rest)
 		for _, k := range splitTop(body, ',') {
